@@ -161,7 +161,8 @@ def rule_scan(ctx):
         linevar = scan.target.id if isinstance(scan.target, ast.Name) else (
             scan.target.elts[-1].id if isinstance(scan.target, ast.Tuple) else None)
     if linevar is None:
-        raise AnalysisError("cannot identify the line variable of the title scan")
+        ctx.undecided("SEC.SCAN", site + "#scan", fi, scan, "the title scan is neither `while <line>:` nor `for <line> in <file>:`")
+        return
     # 1. every readline() in the function is assigned to the line variable (every line read is tested)
     n_read = 0
     for sub in walk_shallow(fi.node):
@@ -195,7 +196,8 @@ def rule_scan(ctx):
         if c.args and isinstance(c.args[0], ast.Tuple) and len(c.args[0].elts) >= 3:
             starts_app = c
     if starts_app is None:
-        raise AnalysisError("cannot find the starts.append((pos, line_no, title)) of the title scan")
+        ctx.undecided("SEC.SCAN", site + "#record", fi, scan, "no `<list>.append((pos, line_no, title))` records the section starts")
+        return
     tests = set()
     for nid in cfg.node_of_expr(starts_app):
         for (tn, lab) in cd.transitive(nid):
@@ -282,6 +284,9 @@ def rule_convention(ctx):
     for c in ast.walk(scan):
         if isinstance(c, ast.Call) and isinstance(c.func, ast.Attribute) and c.func.attr == "append" and c.args and isinstance(c.args[0], ast.Tuple) and len(c.args[0].elts) >= 3:
             starts_app = c
+    if starts_app is None or not isinstance(starts_app.args[0].elts[1], ast.Name):
+        ctx.undecided("SEC.CONVENTION", site + "#producer", fi, fi.node, "no `<list>.append((pos, line_no, title))` in the title scan")
+        return
     cv = starts_app.args[0].elts[1].id
     ends_name = None
     offsets = []
@@ -780,6 +785,9 @@ def rule_case(ctx):
                             vu = _fold_with_defs(atom, var, up, defs, fi)
                             vl = _fold_with_defs(atom, var, lo, defs, fi)
                         except NotConst as e:
+                            if "subscript failed" in str(e):
+                                diff = (up, lo, "raises (%s)" % e, "raises")
+                                break
                             raise AnalysisError("SEC.CASE: cannot fold `%s`: %s" % (unparse(atom), e))
                         if bool(vu) != bool(vl):
                             diff = (up, lo, vu, vl)
